@@ -25,7 +25,7 @@ def pChunkItem : Parser (Item Nat SItem) := do
 def bytesLe (a b : Bytes) : Bool := cmpBytes a b != .gt
 def itemTotalLe (a b : SItem) : Bool := match cmpKey a.1 b.1 with | .lt => true | .gt => false | .eq => bytesLe a.2 b.2
 /-- multiset canonical form -/
-def canonMulti (l : List SItem) : List SItem := isort itemTotalLe l
+def canonMulti (l : List SItem) : List SItem := l.mergeSort itemTotalLe
 /-- tie-class canonical form of a list that is sorted for `cmp`: sort every maximal run of
 `cmp`-equal items by digest -/
 def canonTiesAux (rev : Bool) : Nat → List SItem → List SItem
@@ -34,7 +34,7 @@ def canonTiesAux (rev : Bool) : Nat → List SItem → List SItem
   | fuel+1, x :: xs =>
     let run := xs.takeWhile (fun y => cmpItem rev x y == .eq)
     let rest := xs.dropWhile (fun y => cmpItem rev x y == .eq)
-    isort (fun a b => bytesLe a.2 b.2) (x :: run) ++ canonTiesAux rev fuel rest
+    (x :: run).mergeSort (fun a b => bytesLe a.2 b.2) ++ canonTiesAux rev fuel rest
 def canonTies (rev : Bool) (l : List SItem) : List SItem := canonTiesAux rev (l.length + 1) l
 def sortedFor (rev : Bool) (l : List SItem) : Bool := (l.zip (l.drop 1)).all (fun ab => cmpItem rev ab.1 ab.2 != .gt)
 def showItems (l : List SItem) : String := " ".intercalate (l.map (fun x => s!"{x.1}#{hexEncode x.2}"))
@@ -148,7 +148,8 @@ def handleC01 (inp obs : List String) : Verdict :=
       match specFail with
       | some d => { kind := "specfail", nontrivial, classes, detail := d ++ s!" [chunk_size {c}, threads {threads}, compression {comp}]" }
       | none =>
-        let m := sortBy (fun cm l => isort (fun a b => cm a b != .gt) l) cmp (fun l => l.map (Item.ok (ε := Nat))) c xs
+        -- any sorted permutation meets the contract of the in-memory sort (C01_sortBy); merge sort keeps large cases fast
+        let m := sortBy (fun cm l => l.mergeSort (fun a b => cm a b != .gt)) cmp (fun l => l.map (Item.ok (ε := Nat))) c xs
         if m.1 != len || canonTies rev (okItems m.2) != canonTies rev oks then
           { kind := "diverge", nontrivial, classes, detail := "model output differs (up to the order of ties)" }
         else { kind := "ok", nontrivial, classes }
